@@ -412,3 +412,95 @@ def ambiguous_case(rng):
     base = rnd_base_string(rng, names + (['V'] if rng.random() < 0.1 else []))
     return {'kind': 'ambiguous', 's': base + '.{' + frags + '}', 'all_atom': all_atom,
             'legacy': rng.random() < 0.6}
+
+
+def polymer_case(rng):
+    """homopolymers / copolymers / rings of identical units / grafts with unlabelled descriptors: surplus
+    descriptors are filled with hydrogen"""
+    units = {'PEO': '[$]COC[$]', 'PE': '[$]CC[$]', 'PS': '[$]CC[$]c1ccccc1', 'PMA': '[>]CC[<]C(=O)OC',
+             'PP': '[>]CC(C)[<]', 'OH': '[$]O', 'ME': '[$]C', 'NH': '[$]N[$]', 'AM': '[<]C(=O)N[>]',
+             'BR': '[$]C([$])[$]', 'PH': '[$]c1ccc([$])cc1', 'PV': '[>]C=C[<]', 'VI': '[$]=CC=[$]'}
+    names = rng.sample(sorted(units), rng.randint(1, 3))
+    shape = rng.choice(['chain', 'mult', 'ring', 'graft'])
+    if shape == 'chain':
+        body = ''.join('[#%s]' % rng.choice(names) for _ in range(rng.randint(1, 6)))
+    elif shape == 'mult':
+        body = '[#%s]|%d' % (names[0], rng.randint(2, 5)) + ''.join('[#%s]' % n for n in names[1:])
+    elif shape == 'ring':
+        k = rng.randint(3, 6)
+        body = '[#%s]1' % names[0] + ''.join('[#%s]' % rng.choice(names) for _ in range(k - 2)) + '[#%s]1' % names[0]
+    else:
+        body = '[#%s]([#%s][#%s])[#%s]([#%s])[#%s]' % tuple(rng.choice(names) for _ in range(6))
+    frags = ','.join('#%s=%s' % (n, units[n]) for n in names)
+    return {'kind': 'polymer', 's': '{' + body + '}.{' + frags + '}', 'all_atom': True, 'legacy': rng.random() < 0.7}
+
+
+def star_share_case(rng):
+    """one atom shared by three or four fragments: a centre with k arms, every centre-arm bond replaced
+    by sharing the centre"""
+    k = rng.randint(3, 4)
+    g = nx.Graph()
+    center_el = 'C' if k == 4 or rng.random() < 0.6 else rng.choice(['N', 'P'])
+    if center_el != 'C':
+        k = 3
+    g.add_node(0, element=center_el, charge=0, aromatic=False, h=VAL[center_el] - k)
+    part = {0: 0}
+    for arm in range(k):
+        prev = 0
+        for j in range(rng.randint(1, 3)):
+            i = len(g)
+            el = rng.choice(['C', 'C', 'O', 'N']) if j else 'C'
+            g.add_node(i, element=el, charge=0, aromatic=False, h=0)
+            g.add_edge(prev, i, order=1)
+            part[i] = arm + 1 if arm + 1 < k or rng.random() < 0.5 else arm + 1
+            prev = i
+    for i in g:
+        if i:
+            g.nodes[i]['h'] = VAL[g.nodes[i]['element']] - sum(o for *_, o in g.edges(i, data='order'))
+    nf = k + 1
+    # centre alone in fragment 0; arms 1..k; every cut bond is centre-arm and is shared
+    desc = collections.defaultdict(list)
+    ext = g.copy()
+    members = collections.defaultdict(list)
+    for n, f in part.items():
+        members[f].append(n)
+    base = nx.Graph()
+    base.add_nodes_from(range(nf))
+    lab = 0
+    for a, b, o in list(g.edges(data='order')):
+        if part[a] == part[b]:
+            continue
+        lab += 1
+        c, arm_atom = (a, b) if a == 0 else (b, a)
+        cp = len(ext)
+        ext.add_node(cp, **g.nodes[c])
+        ext.nodes[cp]['h'] = 0
+        ext.add_edge(arm_atom, cp, order=o)
+        members[part[arm_atom]].append(cp)
+        L = 'S%d' % lab if rng.random() < 0.8 else ''
+        desc[cp].append(('!' + L, 1))
+        desc[c].append(('!' + L, 1))
+        base.add_edge(part[c], part[arm_atom], order=1)
+    frag_text = {i: render_frag(rng, ext.subgraph(members[i]).copy(), members[i], desc) for i in range(nf)}
+    names = {i: 'F%d' % i for i in range(nf)}
+    if rng.random() < 0.5:
+        base_str, appearance = render_base(rng, base, names)
+    else:
+        # the centre listed after j of its arms: those arms reach it through ring bonds
+        arms = list(range(1, nf))
+        rng.shuffle(arms)
+        j = rng.randint(1, len(arms))
+        body = ''
+        for r, a in enumerate(arms[:j - 1], 1):
+            body += '[#F%d]%d.' % (a, r)
+        body += '[#F%d][#F0]' % arms[j - 1] + ''.join(str(r) for r in range(1, j))
+        rest = arms[j:]
+        for i, a in enumerate(rest):
+            body += '([#F%d])' % a if i < len(rest) - 1 else '[#F%d]' % a
+        base_str = '{' + body + '}'
+    frags = ','.join('#F%d=%s' % (i, frag_text[i]) for i in rng.sample(range(nf), nf))
+    whole = '{[#M]}.{#M=' + render_frag(rng, g, list(g), {}) + '}'
+    return {'kind': 'cut', 's': base_str + '.{' + frags + '}', 'whole': whole, 'nfrag': nf, 'nshared': k,
+            'natoms': len(g), 'virtual': 0, 'star': True,
+            'mol': {'n': [[n, d['element'], d['charge'], d['h'], d['aromatic']] for n, d in g.nodes(data=True)],
+                    'e': [[a, b, o] for a, b, o in g.edges(data='order')]}}
